@@ -73,7 +73,7 @@ impl Ctl {
             if all_settled && st.turn.is_none() {
                 return Ok((0..n).filter(|i| !st.finished[*i]).collect());
             }
-            let (g, to) = self.cv.wait_timeout(st, Duration::from_secs(10)).unwrap();
+            let (g, to) = self.cv.wait_timeout(st, Duration::from_secs(30)).unwrap();
             st = g;
             if to.timed_out() {
                 return Err(format!("stall: parked={:?} finished={:?} running={}", st.parked, st.finished, st.running));
